@@ -72,4 +72,140 @@ example : runCalls (HiddenFS.mk ["/d/h".toList]) "/d".toList [2, 2, 2]
 example : HiddenFS.translate (HiddenFS.mk ["/var/opt/backups".toList]) (.rename "/var/opt".toList "/x".toList)
     = .error .hiddenPerm := by decide
 
+/-!
+### C11 / C15, the `RemoveAll` clause
+
+"RemoveAll on an ancestor of a hidden path removes everything except the hidden entries and the
+directories leading to them" (C11); "RemoveAll spares hidden entries and their ancestors" is the
+only intended difference from the underlying filesystem for visible names (C15).
+
+Proved for the model's `hiddenRemoveAll` (= `HiddenFS.RemoveAll`: hidden check, `Lstat`, `Walk`
+with the collecting walk function, removal of the collected directories deepest-first), generically
+over an abstract inner filesystem (`Lemmas/HiddenRA.lean`, `Lemmas/HiddenRB.lean`) and instantiated
+here for the OS model behind `PrefixFS` (base root `bk`), for every well-formed link-free disk,
+every hidden set given by keys `hks` (hidden path list: whatever `NewHiddenFS` stores for the paths
+`kp h`), every argument `kp k` below the root (`k ≠ []`), every fuel.
+
+`HidK hks j` = some hidden key is a prefix of `j` (a hidden entry or something below one);
+`ParK hks j` = `j` is a proper prefix of some hidden key (leads to a hidden entry).
+
+Not covered: the root itself as argument (`k = []`: with an empty hidden set the code calls
+`Remove("/")` on the inner filesystem), trees with symlinks, relative names.
+-/
+
+
+/-- the lexical checks on absolute cleaned names, in terms of keys -/
+theorem hidden_checks_on_keys (hks : List Key) (hp : ∀ h ∈ hks, PKey h) (j : Key) (hj : PKey j) :
+    HiddenFS.isHidden (kp j) (HiddenFS.mk (hks.map kp)) = .ok (decide (∃ h ∈ hks, h <+: j)) ∧
+    HiddenFS.isParentOfHidden (kp j) (HiddenFS.mk (hks.map kp)) = .ok (decide (∃ h ∈ hks, j <+: h ∧ j ≠ h)) :=
+  ⟨isHidden_kp (hidKeys_mk hp) hj, isParentOfHidden_kp (hidKeys_mk hp) hj⟩
+
+/-- T11b.A  safety, whatever `RemoveAll` returns and whatever the walk's depth bound: the disk stays
+well-formed, the backup side is untouched, nothing outside the subtree of the argument is touched,
+every hidden entry and everything below it is untouched, and every directory leading to a hidden
+entry is untouched (types, contents, permission bits, owners, file times; directory timestamps are
+not part of the view).  If the argument itself is hidden nothing happens and the error is
+`ErrHiddenNotExist`. -/
+theorem removeAll_spares_hidden (bk kk : Key) (hbk : PKey bk) (hkk : PKey kk)
+    (hne1 : bk ≠ []) (hne2 : kk ≠ []) (hd1 : ¬ bk <+: kk) (hd2 : ¬ kk <+: bk)
+    (hks : List Key) (hp : ∀ h ∈ hks, PKey h) (k : Key) (hk : PKey k) (hne : k ≠ [])
+    (m : MFS) (hg : OSGood bk kk m) (fuel : Nat) :
+    let res := hiddenRemoveAll (HiddenFS.mk (hks.map kp)) ((osCfg bk kk).side .base) fuel m (kp k)
+    OSGood bk kk res.1 ∧
+    osView bk kk .backup res.1 = osView bk kk .backup m ∧
+    (∀ j, ¬ k <+: j → osView bk kk .base res.1 j = osView bk kk .base m j) ∧
+    (∀ j, (∃ h ∈ hks, h <+: j) → osView bk kk .base res.1 j = osView bk kk .base m j) ∧
+    (∀ j, (∃ h ∈ hks, j <+: h ∧ j ≠ h) → (osView bk kk .base m).isDirAt j →
+      osView bk kk .base res.1 j = osView bk kk .base m j) ∧
+    ((∃ h ∈ hks, h <+: k) → res = (m, .error .hiddenNotExist)) :=
+  hiddenRemoveAll_safe (osSim bk kk hbk hkk hne1 hne2 hd1 hd2) (hidKeys_mk hp) hk hne hg fuel
+
+/-- T11b.B  completeness: if `RemoveAll` returns nil, every entry of the subtree of the argument is
+gone, except the hidden entries (with what is below them) and the directories leading to them.  A
+*file* whose name is a lexical ancestor of a hidden path is removed like any other file. -/
+theorem removeAll_removes_the_rest (bk kk : Key) (hbk : PKey bk) (hkk : PKey kk)
+    (hne1 : bk ≠ []) (hne2 : kk ≠ []) (hd1 : ¬ bk <+: kk) (hd2 : ¬ kk <+: bk)
+    (hks : List Key) (hp : ∀ h ∈ hks, PKey h) (k : Key) (hk : PKey k) (hne : k ≠ [])
+    (m : MFS) (hg : OSGood bk kk m) (fuel : Nat)
+    (hok : (hiddenRemoveAll (HiddenFS.mk (hks.map kp)) ((osCfg bk kk).side .base) fuel m (kp k)).2 = .ok ()) :
+    ∀ j, k <+: j → ¬ (∃ h ∈ hks, h <+: j) →
+      ¬ ((∃ h ∈ hks, j <+: h ∧ j ≠ h) ∧ (osView bk kk .base m).isDirAt j) →
+      osView bk kk .base
+        (hiddenRemoveAll (HiddenFS.mk (hks.map kp)) ((osCfg bk kk).side .base) fuel m (kp k)).1 j = none :=
+  hiddenRemoveAll_complete (osSim bk kk hbk hkk hne1 hne2 hd1 hd2) (osSimDir bk kk hbk hkk hne1 hne2 hd1 hd2)
+    (hidKeys_mk hp) hk hne hg fuel hok
+
+/-- T11b.C  success: if the argument exists on the base side, is not hidden, and the walk's depth
+bound exceeds the height of the subtree below it, `RemoveAll` returns nil (so T11b.B applies).  In
+particular a spared entry never makes the removal of a directory fail: the directories of the
+second phase are removed deepest-first and the skipped ones are never inside a removed one. -/
+theorem removeAll_succeeds (bk kk : Key) (hbk : PKey bk) (hkk : PKey kk)
+    (hne1 : bk ≠ []) (hne2 : kk ≠ []) (hd1 : ¬ bk <+: kk) (hd2 : ¬ kk <+: bk)
+    (hks : List Key) (hp : ∀ h ∈ hks, PKey h) (k : Key) (hk : PKey k) (hne : k ≠ [])
+    (m : MFS) (hg : OSGood bk kk m) (fuel : Nat)
+    (hvis : ¬ ∃ h ∈ hks, h <+: k) (hex : osView bk kk .base m k ≠ none)
+    (hht : ∀ j, k <+: j → osView bk kk .base m j ≠ none → j.length < k.length + fuel) :
+    (hiddenRemoveAll (HiddenFS.mk (hks.map kp)) ((osCfg bk kk).side .base) fuel m (kp k)).2 = .ok () :=
+  hiddenRemoveAll_ok (osSim bk kk hbk hkk hne1 hne2 hd1 hd2) (osSimDir bk kk hbk hkk hne1 hne2 hd1 hd2)
+    (hidKeys_mk hp) hk hne hg fuel hvis hex hht
+
+/-- the program the theorems speak about is what the `RemoveAll` method of the layer
+`hiddenFS` runs (depth bound 64) -/
+theorem hiddenFS_removeAll (hiddenPaths : List Path) (inner : FSI MFS) (m : MFS) (n : Path) :
+    (hiddenFS hiddenPaths inner).call m (.removeAll n) =
+      liftU (hiddenRemoveAll (HiddenFS.mk hiddenPaths) inner 64 m n) := rfl
+
+/-- the views of the two theorems, spelled out on the disk: key `j` of the base side is the node
+at `bk ++ j`, with directory timestamps erased -/
+theorem view_spelled_out (bk kk : Key) (m : MFS) (j : Key) :
+    osView bk kk .base m j = (m.get (bk ++ j)).map eraseMt := rfl
+
+/-! ## non-vacuity: the disk of `Lemmas/SimOS.lean` (`/b/f`, `/b/d`; base root `/b`), hidden path
+`/d/h`, `RemoveAll("/d")` -/
+example : OSGood [['b']] [['k']] exDisk ∧ (∀ h ∈ [[['d'], ['h']]], PKey h) ∧ PKey [['d']] ∧
+    (∃ h ∈ [[['d'], ['h']]], [['d']] <+: h ∧ [['d']] ≠ h) ∧
+    (osView [['b']] [['k']] .base exDisk).isDirAt [['d']] :=
+  ⟨osGood_example, by decide, by decide, by decide, ⟨_, rfl⟩⟩
+
+theorem exDisk_height (k j : Key) (hv : osView [['b']] [['k']] .base exDisk j ≠ none) :
+    j.length < k.length + 64 := by
+  obtain ⟨n0, h0⟩ := osView_ne_none hv
+  have hl : (osRoot [['b']] [['k']] .base ++ j).length ≤ 2 := by
+    rcases exDisk_live h0 with ⟨e, _⟩ | ⟨e, _⟩ | ⟨e, _⟩ | ⟨e, _⟩ | ⟨e, _⟩ <;> (rw [e]; decide)
+  simp only [List.length_append] at hl
+  omega
+
+/-- on that disk `RemoveAll("/d")` returns nil and `/d`, which leads to the hidden `/d/h`, is
+still a directory afterwards, while `RemoveAll("/f")` returns nil and `/f` is gone -/
+example :
+    (hiddenRemoveAll (HiddenFS.mk ([[['d'], ['h']]].map kp)) ((osCfg [['b']] [['k']]).side .base) 64 exDisk
+      (kp [['d']])).2 = .ok () ∧
+    (osView [['b']] [['k']] .base
+      (hiddenRemoveAll (HiddenFS.mk ([[['d'], ['h']]].map kp)) ((osCfg [['b']] [['k']]).side .base) 64 exDisk
+        (kp [['d']])).1).isDirAt [['d']] ∧
+    (hiddenRemoveAll (HiddenFS.mk ([[['d'], ['h']]].map kp)) ((osCfg [['b']] [['k']]).side .base) 64 exDisk
+      (kp [['f']])).2 = .ok () ∧
+    osView [['b']] [['k']] .base
+      (hiddenRemoveAll (HiddenFS.mk ([[['d'], ['h']]].map kp)) ((osCfg [['b']] [['k']]).side .base) 64 exDisk
+        (kp [['f']])).1 [['f']] = none := by
+  have hd : (osView [['b']] [['k']] .base exDisk).isDirAt [['d']] := ⟨_, rfl⟩
+  have hpk : ∀ h ∈ [[['d'], ['h']]], PKey h := by decide
+  have hA := removeAll_spares_hidden [['b']] [['k']] (by decide) (by decide) (by decide) (by decide) (by decide)
+    (by decide) [[['d'], ['h']]] hpk [['d']] (by decide) (by decide) exDisk osGood_example 64
+  have hC1 := removeAll_succeeds [['b']] [['k']] (by decide) (by decide) (by decide) (by decide) (by decide)
+    (by decide) [[['d'], ['h']]] hpk [['d']] (by decide) (by decide) exDisk osGood_example 64 (by decide)
+    (by obtain ⟨mt, e⟩ := hd; rw [e]; simp) (fun j _ hv => exDisk_height _ j hv)
+  have hf : osView [['b']] [['k']] .base exDisk [['f']] ≠ none := by
+    show (exDisk.get ([['b']] ++ [['f']])).map eraseMt ≠ none
+    decide
+  have hC2 := removeAll_succeeds [['b']] [['k']] (by decide) (by decide) (by decide) (by decide) (by decide)
+    (by decide) [[['d'], ['h']]] hpk [['f']] (by decide) (by decide) exDisk osGood_example 64 (by decide)
+    hf (fun j _ hv => exDisk_height _ j hv)
+  have hB2 := removeAll_removes_the_rest [['b']] [['k']] (by decide) (by decide) (by decide) (by decide) (by decide)
+    (by decide) [[['d'], ['h']]] hpk [['f']] (by decide) (by decide) exDisk osGood_example 64 hC2
+    [['f']] (List.prefix_refl _) (by decide) (fun hc => absurd hc.1 (by decide))
+  refine ⟨hC1, ?_, hC2, hB2⟩
+  obtain ⟨mt, e⟩ := hd
+  exact ⟨mt, (hA.2.2.2.2.1 [['d']] (by decide) ⟨mt, e⟩).trans e⟩
+
 end Props.C11
